@@ -1,7 +1,7 @@
 """C06: no device behaviour or port failure can crash or hang the driver."""
 from lib import script
 
-THEOREMS = ["C06_no_panic", "C06_response_parser_total", "C06_at_most_8_writes", "C06_one_write_per_exchange"]
+THEOREMS = ["C06_total", "C06_no_panic", "C06_response_parser_total", "C06_at_most_8_writes", "C06_one_write_per_exchange"]
 
 
 def run(res, args):
@@ -12,5 +12,4 @@ def run(res, args):
                     "position of every call kind's answer, every prefix of every valid answer followed by silence (EOF mode and no-progress "
                     "mode), every response nibble with empty and short payloads, random byte streams with random fault schedules, "
                     "noise and lines longer than the 4096-byte reader buffer.",
-                    partial=["absence of OutOfFuel (termination of the modelled loops for every script) is exercised, not yet proved",
-                             "register-API calls (connect, read-all) are covered by C10/C11"])
+                    partial=["register-API calls (connect, read-all) are covered by C10/C11"])
